@@ -261,12 +261,23 @@ fn req_line(d: u8, xs: &[Vec<u8>]) -> String {
 
 pub fn gen(tier: Tier, r: &mut Rng, emit: &mut dyn FnMut(String)) {
     let quick = tier == Tier::Quick;
-    // every printable ASCII delimiter other than the quote
-    let delims: Vec<u8> = (0x20u8..0x7f).filter(|&c| c != b'"').collect();
-    let per_delim = if quick { 10 } else { 400 };
+    // every printable ASCII delimiter other than the quote (thorough); the quick tier keeps the
+    // common ones plus a seed-dependent sample, because every delimiter costs two CLI processes
+    let mut delims: Vec<u8> = (0x20u8..0x7f).filter(|&c| c != b'"').collect();
+    if quick {
+        let mut keep: Vec<u8> = vec![b',', b';', b'|', b' ', b'\\', b'\'', b'a', b'0'];
+        while keep.len() < 20 {
+            let c = *r.pick(&delims);
+            if !keep.contains(&c) {
+                keep.push(c);
+            }
+        }
+        delims = keep;
+    }
+    let per_delim = if quick { 30 } else { 400 };
     let mut all: Vec<(u8, Vec<Vec<Vec<u8>>>)> = Vec::new();
     for &d in &delims {
-        let n = if d == b',' { per_delim * 10 } else { per_delim };
+        let n = if d == b',' { per_delim * 6 } else { per_delim };
         let mut cases = Vec::new();
         for i in 0..n {
             let k = match i % 7 {
